@@ -152,14 +152,17 @@ func (s *Store[H]) Stop(ctx context.Context) error {
 	// signal to prevent further writes to Store
 	select {
 	case s.writes <- nil:
-		s.cancel()
 	case <-ctx.Done():
 		return ctx.Err()
 	}
 	// wait till it is done writing
+	// NOTE: the flush context must stay alive until then, otherwise the queued
+	// writes are flushed without advancing the head pointer
 	select {
 	case <-s.writesDn:
+		s.cancel()
 	case <-ctx.Done():
+		s.cancel()
 		return ctx.Err()
 	}
 
